@@ -354,7 +354,7 @@ struct Runner {
     }
 
     void staleProbe() {
-        // a stale or foreign handle must be rejected with std::invalid_argument and leave the Subject untouched
+        // a stale or foreign handle must be rejected with an exception and leave the Subject untouched
         unsigned kind = (unsigned) rng.below(5);
         Sub dflt;
         Sub *h = nullptr;
@@ -367,12 +367,10 @@ struct Runner {
         if (!h) return;
         note("stale-handle");
         log(std::string("stale:") + what[0]);
-        bool threw = false, wrongType = false;
+        bool threw = false;
         try { subj->unsubscribe(*h); }
-        catch (const std::invalid_argument &) { threw = true; }
-        catch (...) { threw = true; wrongType = true; }
+        catch (...) { threw = true; }   // "with an exception": which one is not part of the statement
         if (!threw) return fail("C05", "stale-handle-accepted", site, std::string("Subject::unsubscribe accepted a ") + what + " handle");
-        if (wrongType) return fail("C05", "stale-handle-accepted", site, std::string("wrong exception type for a ") + what + " handle");
         if (subj->isSubscriptionValid(*h)) return fail("C05", "stale-handle-accepted", site, std::string("isSubscriptionValid() true for a ") + what + " handle");
         ++C.staleRejected;
         nontrivial = true;
